@@ -109,6 +109,10 @@ def worker():
                 if recs_user is not None:
                     import pandas as pd
                     net.recordings = pd.concat([net.recordings, recs_user])
+                    if job.get("dup_v"):
+                        # C08: the voltage of compartment 0 once more AFTER the synaptic rows, so that recordings of different
+                        # states interleave (v ..., <synaptic states / currents>, v): every row must come back at its table position
+                        net.recordings = pd.concat([net.recordings, net.recordings.iloc[[0]]])
                 kw = {} if net.externals else {"t_max": (T - 1) * DT}
                 if pstate is not None:
                     kw["param_state"] = pstate
@@ -129,6 +133,8 @@ def worker():
                     states_ = list(net.recordings["state"])
                     got = [[tok(-x if s.startswith("i_") else x) for x in row] for row, s in zip(out, states_)]
                     want = [list(r) for r in st["obs"]]
+                    if job.get("dup_v") and recs_user is not None:
+                        want = want + [want[0]]
                     nrows = len(net.nodes)
                     if got[:nrows] != want[:nrows]:
                         res["mismatch"].append({"kind": "voltages", **sig, "voltage_solver": vs, "hist": st["hist"], "route": route,
@@ -282,7 +288,8 @@ def main(which):
         if ops[need] == 0:
             raise C.MachineryError("vacuity: no sampled history contains %s" % need)
     backends = ["jaxley.thomas", "jax.sparse"] if quick else ["jaxley.stone", "jaxley.thomas", "jax.sparse"]
-    jobs = [{"model": model, "states": ch, "backends": backends, "layout": sorted(LAYOUTS)[(i + sd) % 2], "salt": i + sd}
+    jobs = [{"model": model, "states": ch, "backends": backends, "layout": sorted(LAYOUTS)[(i + sd) % 2], "salt": i + sd,
+             "dup_v": which == "C08"}
             for i, ch in enumerate(C.chunks(sts, C.NCPU * 2))]
     outs = C.run_workers("net_check", jobs, timeout=3000)
     n = 0
